@@ -43,6 +43,10 @@ def agg_rules(tier: str):
         if tier != "quick":
             out.append((f"nbnd_l_{o}", f"r(P) :- grp(P), not 2 {op} #{{F}} {{{{ V : q(P,V) }}}}.", None))
             out.append((f"nnbnd_r_{o}", f"r(P) :- grp(P), not not #{{F}} {{{{ V : q(P,V) }}}} {op} 2.", None))
+    for op, fun_ok in ((">=", "max"), (">", "max"), ("<=", "min"), ("<", "min")):
+        out.append((f"bnd_scope_count_{op}", f"r(P) :- grp(P), #{{F}} {{{{ V : q(P,V) }}}} {op} 2, 1 <= #count {{{{ V : dq(P,V) }}}}.", None))
+        out.append((f"bnd_scope_cond_{op}", f"r(P) :- grp(P), #{{F}} {{{{ V : q(P,V) }}}} {op} 2, dq(P,V) : q(P,V).", None))
+        out.append((f"bnd_scope_sum_{op}", f"r(P,S) :- grp(P), #{{F}} {{{{ V : q(P,V) }}}} {op} 1, S = #sum {{{{ V : q(P,V) }}}}.", None))
     out.append(("bnd_two", "r(P) :- grp(P), 1 <= #{F} {{ V : q(P,V) }} <= 2.", None))
     out.append(("bnd_var", "r(P) :- grp(P), #{F} {{ V : q(P,V) }} >= P.", None))
     return out
@@ -72,6 +76,11 @@ USERS = [
     ("swapped_weak", ":~ r(X,P), X > -9, X < 9. [X@1,P]", ["r2s"]),
     ("swapped_sum", "u(S) :- S = #sum {{ X,P : r(X,P), X > -9, X < 9 }}.", ["r2s"]),
     ("swapped_min", "#minimize {{ X@1,P : r(X,P), X > -9, X < 9 }}.", ["r2s"]),
+    ("min_arith_tuple", "#minimize {{ X@1,P/3 : r(P,X) }}.", ["r2"]),
+    ("weak_fun_arith_tuple", ":~ r(P,X). [X@1,f(P/3)]", ["r2"]),
+    ("weak_zero_tuple", ":~ r(P,X). [X@1,P*0]", ["r2"]),
+    ("sum_arith_tuple", "u(S) :- S = #sum {{ X,P/3 : r(P,X) }}.", ["r2"]),
+    ("sum_fun_tuple", "u(S) :- S = #sum {{ X,f(P) : r(P,X) }}.", ["r2"]),
     ("body_use", "u(P) :- r(P,X), X >= 2.", ["r2"]),
 ]
 
